@@ -37,6 +37,9 @@ RenderCases ==
 \cup {Render("{{ x = " \o ObjK(n, Num, ks) \o " }}{{ x }}@each(o in [x, x]){{ o }};@end", <<>>, <<>>, "assigned-object-keys") : n \in 2..6, ks \in 2..4}
 \cup {Render("{{ " \o ObjK(n, BadV, ks) \o " }}", <<>>, <<>>, "failing-entries-keys") : n \in 2..6, ks \in 2..4}
 \cup {Render("{{ " \o Obj(n, BadV) \o " }}", <<>>, <<>>, "failing-entries") : n \in 2..6}
+\cup {Render("@component(\"x\", [" \o Obj(n, Num) \o "])", <<>>, <<>>, "error-text-with-object") : n \in 2..6}
+\cup {Render("{{ " \o Obj(n, Num) \o ".zz }}", <<>>, <<>>, "error-text-with-object") : n \in 2..6}
+\cup {Render("{{ " \o Obj(n, Num) \o " + 1 }}", <<>>, <<>>, "error-text-with-object") : n \in 2..6}
 \cup {Render("{{ " \o Obj(n, MixV) \o " }}", <<>>, <<>>, "failing-entries") : n \in 4..6}
 \cup {Render("{{ x = " \o Obj(n, Num) \o " }}{{ x }}{{ x.a }}", <<>>, <<>>, "assigned-object") : n \in 2..4}
 \cup {Render("@each(o in [" \o Obj(3, Num) \o ", " \o Obj(4, Num) \o "]){{ o }};@end", <<>>, <<>>, "objects-in-loop")}
@@ -62,12 +65,16 @@ TreeCases ==
    Tree(<<F("components/o", "{{ a }}{{ b }}{{ c }}{{ d }}"), F("home", "@component(\"~o\", " \o Obj(4, Num) \o ")|@component(\"~o\", {d: 9, c: 8, b: 7, a: 6})")>>, "home", "component-arguments"),
    Tree(<<Card, F("home", "{{ x = 1 }}{{ y = 2 }}{{ n = true }}@component(\"~card\", {x: \"s\", y: \"t\", n: 3, loop: 4})")>>, "home", "unbindable-arguments"),
    Tree(<<Card, F("home", "@each(q in [1, 2]){{ x = 1 }}{{ y = 2.5 }}@component(\"~card\", {x: \"s\", y: \"t\", n: loop, q: \"z\", loop: q})@end")>>, "home", "unbindable-arguments"),
+   Tree(<<Card, F("home", "@component(\"~card\", [" \o Obj(5, Num) \o "])")>>, "home", "error-text-with-object"),
+   Tree(<<Card, F("home", "@component(\"~card\", " \o Obj(4, Num) \o ".a)")>>, "home", "error-text-with-object"),
    Tree(<<F("a", "A"), F("b", "B"), F("c/d", "D"), F("c/e", "E"), F("f", "@dump(" \o Obj(5, Num) \o ")")>>, "f", "many-files")}
 
 \* "every time, within one process": the same source rendered after a success, after a failure that had already produced
 \* output, after a failure at its very start - every arrangement of up to four renders over these sources
-Goods == {"x{{ 1 }}y", "{{ " \o Obj(3, Num) \o " }}", "@each(v in [1, 2])<{{ v }}>@end"}
-Fails == {"partial {{ 1 }}{{ zz }}", "@each(v in [1, 2])p{{ v }}{{ 1 / (v - 2) }}@end", "head@if(true)in{{ 1 + \"s\" }}@end", "{{ zz }}never"}
+Goods == {"@dump(1)x", "@dump([1, 2])",
+          "x{{ 1 }}y", "{{ " \o Obj(3, Num) \o " }}", "@each(v in [1, 2])<{{ v }}>@end"}
+Fails == {"@dump(1){{ zz }}", "@dump({a: 1})@if(true){{ 1 / 0 }}@end",
+          "partial {{ 1 }}{{ zz }}", "@each(v in [1, 2])p{{ v }}{{ 1 / (v - 2) }}@end", "head@if(true)in{{ 1 + \"s\" }}@end", "{{ zz }}never"}
 Srcs == Goods \cup Fails
 SeqCases == {[kind |-> "seq", steps |-> <<a, b, c>>, tags |-> <<"c14", "sequence">>] : a \in Srcs, b \in Fails, c \in Srcs}
             \cup {[kind |-> "seq", steps |-> <<a, b, a, c, a>>, tags |-> <<"c14", "sequence">>] : a \in Goods, b \in Fails, c \in Fails}
